@@ -25,7 +25,7 @@ namespace Unyt.Ufunc
 /-- the unit-rule functions of unyt/array.py:179-291 -/
 inductive Rule
   | preserve | difference | multiply | divide | returnWithoutUnit | passthrough | power
-  | sqrt | cbrt | square | reciprocal | arctan2 | comparison | invert | bitop
+  | sqrt | cbrt | square | reciprocal | arctan2 | comparison | invert | bitop | floorDivide
   | other (fn : String)
 deriving DecidableEq, Repr, Inhabited
 
@@ -38,6 +38,7 @@ def Rule.ofName (s : String) : Rule :=
   else if s = "_square_unit" then .square else if s = "_reciprocal_unit" then .reciprocal
   else if s = "_arctan2_unit" then .arctan2 else if s = "_comparison_unit" then .comparison
   else if s = "_invert_units" then .invert else if s = "_bitop_units" then .bitop
+  else if s = "_floor_divide_units" then .floorDivide
   else .other s
 
 def Rule.str : Rule → String
@@ -45,13 +46,19 @@ def Rule.str : Rule → String
   | .divide => "divide" | .returnWithoutUnit => "return_without_unit"
   | .passthrough => "passthrough" | .power => "power" | .sqrt => "sqrt" | .cbrt => "cbrt"
   | .square => "square" | .reciprocal => "reciprocal" | .arctan2 => "arctan2"
-  | .comparison => "comparison" | .invert => "invert" | .bitop => "bitop" | .other s => "other:" ++ s
+  | .comparison => "comparison" | .invert => "invert" | .bitop => "bitop"
+  | .floorDivide => "floor_divide" | .other s => "other:" ++ s
 
 /-- the rules for which `__array_ufunc__` enters the dimension check
     (`unit_operator in (_preserve_units, _comparison_unit, _arctan2_unit, _difference_units)`) -/
 def Rule.checked : Rule → Bool
   | .preserve | .comparison | .arctan2 | .difference => true
   | _ => false
+
+/-- the rules under which the dispatcher enters the "rescale the second operand" block: the four
+    checked ones and `_floor_divide_units` — which gets there only with commensurable operands
+    (on a dimension mismatch it has been replaced by `_divide_units` just before) -/
+def Rule.rescales (r : Rule) : Bool := r.checked || r == .floorDivide
 
 /-- everything `__array_ufunc__` reads from module-level tables; ufuncs are identified by `__name__` -/
 structure Tables where
@@ -165,14 +172,18 @@ structure Call (K : Type) where
   method : Method := .call
   inputs : List (Operand K)
   out : OutSpec := .none
-  /-- `in_shape[axis]` when `axis=` is given (read by the multiply/divide reduction only) -/
+  /-- `in_shape[axis]` (axis defaults to 0); `none` = an explicit `axis=None`: the whole size
+      (read by the multiply/divide reduction only) -/
   axisLen : Option Nat := none
   /-- NumPy's own refusal of the stripped call (the kernel is a parameter of the model) -/
   kernelErr : Option Err := none
   /-- shape of what NumPy's kernel returns for the stripped call (read by the wrap-up only) -/
   kernelShape : List Nat := []
-  /-- keyword operands that `__array_ufunc__` forwards to NumPy without looking at them
-      (`initial=`, `where=`): they cannot influence the outcome -/
+  /-- `initial=` of a reduction: expressed in the operand's units when it carries units and the
+      ufunc's rule is a checked one (array.py, one-input branch) -/
+  initial : Option (Operand K) := none
+  /-- other keyword operands that `__array_ufunc__` forwards to NumPy without looking at them
+      (`where=`, …): they cannot influence the outcome -/
   extra : List (String × Operand K) := []
 
 /-- effects on the `out=` operands (inputs are never written unless they are `out`) -/
@@ -197,8 +208,13 @@ structure Outcome (K : Type) where
   unit : Option (UnitV K)
   /-- factor the (second, or for trigonometric functions the only) operand was multiplied by -/
   factor : Option K := none
-  /-- itemsize of the float dtype the factor and the second operand were cast to -/
+  /-- factor the *first* operand was multiplied by (temperature difference + temperature point:
+      the difference is re-expressed in the point's degrees, array.py:1997-2006) -/
+  factorFirst : Option K := none
+  /-- itemsize of the float (complex for a complex operand) dtype the factor and the second operand were cast to -/
   factorItemsize : Option Nat := none
+  /-- factor `initial=` was multiplied by (`initial.to_value(u)`) -/
+  factorInitial : Option K := none
   /-- multiplier applied to the result afterwards (`mul`, and the dimensionless-ratio rescale) -/
   mul : K
   /-- `==`/`!=` early return: `some false` = all-False, `some true` = all-True -/
@@ -322,7 +338,7 @@ def applyRule1 (C : Ctx K) (r : Rule) (u : UnitR K) : Except Err (K × Option (U
   | .square => (u.v.mul u.v).map fun x => (1, some x)
   | .reciprocal => (u.v.pow (-1)).map fun x => (1, some x)
   -- two-argument rule functions called with one argument, and the refusing ones: TypeError
-  | .multiply | .divide | .power | .arctan2 | .bitop | .invert => .error .TypeError
+  | .multiply | .divide | .power | .arctan2 | .bitop | .invert | .floorDivide => .error .TypeError
   | .other _ => .error .Other
 
 /-- the rule function called with two units -/
@@ -335,6 +351,9 @@ def applyRule2 (C : Ctx K) (r : Rule) (u0 u1 : UnitR K) : Except Err (K × Optio
   | .arctan2 => .ok (1, some (UnitR.null : UnitR K).v)
   | .multiply => (u0.v.mul u1.v).map fun x => let s := C.simp x; (s.1, some s.2)
   | .divide => (u0.v.div u1.v).map fun x => let s := C.simp x; (s.1, some s.2)
+  -- `_floor_divide_units`: dividing the units refuses offset / logarithmic operands; the floored
+  -- ratio of two commensurable quantities is a pure number
+  | .floorDivide => (u0.v.div u1.v).map fun _ => (1, some (UnitR.null : UnitR K).v)
   | .power | .sqrt | .cbrt | .square | .reciprocal | .bitop | .invert => .error .TypeError
   | .other _ => .error .Other
 
@@ -350,13 +369,16 @@ inductive Check (K : Type)
   | refuse
 deriving Repr
 
-/-- the zero exception: `u0 = u1` when the first operand is all zeros, else `u1 = u0` when the
-    second is — entered whenever at least one operand is not a `unyt_array` -/
+/-- the coerced operand has no `units` attribute: a number, a bare array, a sequence of numbers -/
+def Operand.hasNoUnits {K : Type} : Operand K → Bool
+  | .bare _ => true
+  | _ => false
+
+/-- the zero exception: an operand *without units* that is all zeros adopts the unit of its
+    partner (`u0 = u1` for the first operand, else `u1 = u0` for the second) -/
 def adoptZero (i0 i1 : Operand K) (u0 u1 : UnitR K) : UnitR K × UnitR K :=
-  if !(i0.isUnyt) || !(i1.isUnyt) then
-    if i0.data.allZero then (u1, u1)
-    else if i1.data.allZero then (u0, u0)
-    else (u0, u1)
+  if i0.hasNoUnits && i0.data.allZero then (u1, u1)
+  else if i1.hasNoUnits && i1.data.allZero then (u0, u0)
   else (u0, u1)
 
 /-- array.py:1903-1954 -/
@@ -378,7 +400,8 @@ def commensurate (C : Ctx K) (rule : Rule) (f : String) (i0 i1 : Operand K) (u0 
 
 /-! ## §6 `out=` handling -/
 
-/-- array.py:1800-1823: an integer `out` is turned into a float array before anything is checked -/
+/-- `_float_out_view`: an integer `out` is turned into a float array immediately before the kernel
+    writes into it — after every unit check -/
 def prepOut (T : Tables) (f : String) : OutSpec → List (Effect K)
   | .one o => if (T.multiOut.any (·.1 == f)) then [] else if o.intDtype then [.retypeOut] else []
   | _ => []
@@ -427,10 +450,9 @@ def powerMapUnit (T : Tables) (f : String) (u : UnitV K) (n : Nat) : Except Err 
 /-- array.py:2014-2029: the result is wrapped in `ret_class`; when neither input is a
     `unyt_array` (`_get_binary_op_return_class` then answers `list`, `float`, `ndarray`, …) that
     constructor call fails — after the kernel has run -/
-def wrapClassFails (T : Tables) (c : Call K) (retPlain : Bool) (unit : Option (UnitV K)) : Bool :=
-  retPlain && unit.isSome &&
-    (c.ufunc == T.modfName || c.ufunc == T.divmodName
-      || (c.kernelShape != [] && c.kernelShape.foldl (· * ·) 1 != 1))
+def wrapClassFails (_T : Tables) (c : Call K) (retPlain : Bool) (unit : Option (UnitV K)) : Bool :=
+  -- `_wrap_ufunc_output`: 0-d and size-1 results never reach `ret_class(...)`, also for modf/divmod
+  retPlain && unit.isSome && (c.kernelShape != [] && c.kernelShape.foldl (· * ·) 1 != 1)
 
 /-- wrap-up shared by all paths: wrap the result, label the outputs, return -/
 def wrapUp (T : Tables) (eff : List (Effect K)) (c : Call K) (retPlain : Bool) (mul : K)
@@ -457,14 +479,28 @@ def unaryPath (C : Ctx K) (c : Call K) (inp : Operand K) (eff0 : List (Effect K)
           | .error e => .error e
           | .ok fo => .ok (some fo.1)
       else .ok none
+    -- `initial=` carrying units is expressed in the operand's units first (checked rules only)
+    let ini : Except Err (Option K) :=
+      match c.initial with
+      | some (.unyt _ ui _) =>
+        if (match C.T.ruleOf c.ufunc with | some r => r.checked | none => false) then
+          match getConversionFactor C.pre C.lut ui.v u.v with
+          | .error e => .error e
+          | .ok fo => .ok (some fo.1)
+        else .ok none
+      | _ => .ok none
+    match ini with
+    | .error e => ⟨eff0, .error e⟩
+    | .ok finit =>
     match trig with
     | .error e => ⟨eff0, .error e⟩
     | .ok factor =>
-      -- the kernel runs before the unit rule is consulted
+      -- the kernel runs before the unit rule is consulted; an integer `out` is made float for it
+      let effR := eff0 ++ prepOut C.T c.ufunc c.out
       match c.kernelErr with
-      | some e => ⟨eff0, .error e⟩
+      | some e => ⟨effR, .error e⟩
       | none =>
-        let eff1 := eff0 ++ kernelWrites c.out
+        let eff1 := effR ++ kernelWrites c.out
         let ru : Except Err (K × Option (UnitV K)) :=
           if (c.ufunc == C.T.multiplyName || c.ufunc == C.T.divideName) && c.method == .reduce then
             (powerMapUnit C.T c.ufunc u.v (match c.axisLen with | some n => n | none => d.size)).map
@@ -475,16 +511,30 @@ def unaryPath (C : Ctx K) (c : Call K) (inp : Operand K) (eff0 : List (Effect K)
             | some r => applyRule1 C r u
         match ru with
         | .error e => ⟨eff1, .error e⟩
-        | .ok (mul, unit) => wrapUp C.T eff1 c false mul unit factor none
+        | .ok (mul, unit) =>
+          let r := wrapUp C.T eff1 c false mul unit factor none
+          ⟨r.effects, r.result.map fun o => { o with factorInitial := finit }⟩
 
-/-- array.py:1955-1968: rescaling of the second operand -/
-def convertSecond (C : Ctx K) (u0 u1 : UnitR K) (d1 : Data) : Except Err (K × Nat) :=
+/-- which operand the `u0 != u1` branch rescales -/
+inductive Rescale (K : Type)
+  /-- `inp1 = np.asarray(inp1, dtype=<f|c><itemsize>) * conv` -/
+  | second (factor : K) (itemsize : Nat)
+  /-- `inp0 = np.asarray(inp0) * (u0.base_value / u1.base_value)` -/
+  | first (factor : K)
+
+/-- array.py:1983-2008: rescaling of the second operand (or, for a temperature difference plus a
+    temperature point under `_preserve_units`, of the first) -/
+def convertSecond (C : Ctx K) (rule : Rule) (u0 u1 : UnitR K) (d1 : Data) : Except Err (Rescale K) :=
   match getConversionFactor C.pre C.lut u1.v u0.v with
   | .error e => .error e
   | .ok fo =>
-    if !([2, 4, 8, 16].contains d1.itemsize) then .error .TypeError   -- np.dtype("f1")
+    -- np.dtype("f1") / np.dtype("c4") do not exist
+    let sizes : List Nat := if d1.kind == .c then [8, 16, 32] else [2, 4, 8, 16]
+    if !(sizes.contains d1.itemsize) then .error .TypeError
     else if fo.2.isSome && u1.v.offset != 0 && !(startsDelta u0.repr) then .error .InvalidUnitOperation
-    else .ok (fo.1, d1.itemsize)
+    else if rule == .preserve && isTemperature u0.v && u0.v.offset == 0 && u1.v.offset != 0 then
+      .ok (.first (u0.v.scale / u1.v.scale))
+    else .ok (.second fo.1 d1.itemsize)
 
 /-- array.py:1975-1992: after the kernel of a multiply/divide rule -/
 def mulDivPost (rule : Rule) (u0 u1 : UnitR K) (mul : K) (unit : Option (UnitV K)) :
@@ -511,7 +561,9 @@ def stdBinary (C : Ctx K) (c : Call K) (rule : Rule) (i0 i1 : Operand K)
   if rule == .preserve && isTemperature u0.v && u1.v.offset != 0 && u0.v.offset == 0
       && (u0.repr == "K" || u0.repr == "R") then ⟨eff0, .error .UnitOperationError⟩
   else
-    let chk : Check K := if rule.checked then commensurate C rule c.ufunc i0 i1 u0 u1 else .pass u0 u1 false
+    -- floor division of operands of different dimensions: the plain quotient rule
+    let rule : Rule := if rule == .floorDivide && u0.v.dim != u1.v.dim then .divide else rule
+    let chk : Check K := if rule.rescales then commensurate C rule c.ufunc i0 i1 u0 u1 else .pass u0 u1 false
     match chk with
     | .refuse => ⟨eff0, .error .UnitOperationError⟩
     | .early b =>
@@ -528,22 +580,27 @@ def stdBinary (C : Ctx K) (c : Call K) (rule : Rule) (i0 i1 : Operand K)
         else ⟨eff0 ++ eff, .ok { unit := none, mul := 1, early := some b }⟩
       | .none => ⟨eff0, .ok { unit := none, mul := 1, early := some b }⟩
     | .pass u0 u1 conv =>
-      let cv : Except Err (Option (K × Nat)) :=
-        if conv then (convertSecond C u0 u1 i1.data).map some else .ok none
+      let cv : Except Err (Option (Rescale K)) :=
+        if conv then (convertSecond C rule u0 u1 i1.data).map some else .ok none
       match cv with
       | .error e => ⟨eff0, .error e⟩
       | .ok cvo =>
         match applyRule2 C rule u0 u1 with
         | .error e => ⟨eff0, .error e⟩
         | .ok (mul, unit) =>
+          let effR := eff0 ++ prepOut C.T c.ufunc c.out
           match c.kernelErr with
-          | some e => ⟨eff0, .error e⟩
+          | some e => ⟨effR, .error e⟩
           | none =>
-            let eff1 := eff0 ++ kernelWrites c.out
+            let eff1 := effR ++ kernelWrites c.out
             match mulDivPost rule u0 u1 mul unit with
             | .error e => ⟨eff1, .error e⟩
             | .ok (mul, unit) =>
-              wrapUp C.T eff1 c (!(i0.isUnyt) && !(i1.isUnyt)) mul unit (cvo.map (·.1)) (cvo.map (·.2))
+              let f2 : Option K := match cvo with | some (.second f _) => some f | _ => none
+              let fz : Option Nat := match cvo with | some (.second _ z) => some z | _ => none
+              let f1 : Option K := match cvo with | some (.first f) => some f | _ => none
+              let r := wrapUp C.T eff1 c (!(i0.isUnyt) && !(i1.isUnyt)) mul unit f2 fz
+              ⟨r.effects, r.result.map fun o => { o with factorFirst := f1 }⟩
 
 /-- array.py:1863-1890: `power` reads its exponent from the second operand -/
 def powerPath (C : Ctx K) (c : Call K) (i0 i1 : Operand K) (u0r c1 : Option (UnitR K))
@@ -573,9 +630,10 @@ def powerPath (C : Ctx K) (c : Call K) (i0 i1 : Operand K) (u0r c1 : Option (Uni
       match ru with
       | .error e => ⟨eff0, .error e⟩
       | .ok (mul, unit) =>
+        let effR := eff0 ++ prepOut C.T c.ufunc c.out
         match c.kernelErr with
-        | some e => ⟨eff0, .error e⟩
-        | none => wrapUp C.T (eff0 ++ kernelWrites c.out) c (!(i0.isUnyt) && !(i1.isUnyt)) mul unit none none
+        | some e => ⟨effR, .error e⟩
+        | none => wrapUp C.T (effR ++ kernelWrites c.out) c (!(i0.isUnyt) && !(i1.isUnyt)) mul unit none none
 
 /-- array.py:1841-1992 -/
 def binaryPath (C : Ctx K) (c : Call K) (i0 i1 : Operand K) (eff0 : List (Effect K)) : Run K :=
@@ -608,7 +666,7 @@ def clipPath (C : Ctx K) (c : Call K) (eff0 : List (Effect K)) : Run K :=
 
 /-- `unyt_array.__array_ufunc__` -/
 def dispatch (C : Ctx K) (c : Call K) : Run K :=
-  let eff0 : List (Effect K) := prepOut C.T c.ufunc c.out
+  let eff0 : List (Effect K) := []
   match c.inputs with
   | [inp] => unaryPath C c inp eff0
   | [i0, i1] => binaryPath C c i0 i1 eff0
